@@ -25,7 +25,7 @@ func (s *Server) References(ctx context.Context, params *protocol.ReferenceParam
 	}
 
 	resolved := s.getWorkspaceResolved(params.TextDocument.URI)
-	currentPath := uriToPath(params.TextDocument.URI)
+	currentPath := s.resolvedPrimaryPath(params.TextDocument.URI)
 
 	return findReferences(target, resolved, currentPath, journal, params.Context.IncludeDeclaration), nil
 }
